@@ -1671,6 +1671,18 @@ class DynDiGraph(nx.DiGraph):
 
         return dist
 
+    def clear(self):
+        """Remove all nodes and interactions from the graph, together with its snapshots and interaction stream."""
+        nx.DiGraph.clear(self)
+        self.time_to_edge = defaultdict(int)
+        self.snapshots = {}
+
+    def clear_edges(self):
+        """Remove all interactions from the graph, together with its snapshots and interaction stream."""
+        nx.DiGraph.clear_edges(self)
+        self.time_to_edge = defaultdict(int)
+        self.snapshots = {}
+
     @not_implemented()
     def remove_edge(self, u, v):
         pass
